@@ -39,6 +39,10 @@ class Impl(Abs):
     def f(self): ...
 
 
+class ImplChild(Impl):
+    """Child of a CONCRETE class whose metaclass is ABCMeta: P[Impl] is exact, it does not match the child."""
+
+
 @runtime_checkable
 class Proto(Protocol):
     def g(self): ...
@@ -49,7 +53,7 @@ class PImpl:
 
 
 NT = NewType("NT", int)
-LOC_TYPES = [A, A1, Abs, Impl, Proto, PImpl, int, str, List[int], List[str], list, NT, Optional[int]]
+LOC_TYPES = [A, A1, Abs, Impl, ImplChild, Proto, PImpl, int, str, List[int], List[str], list, NT, Optional[int]]
 FIELD_IDS = ["a", "b", "ab"]
 
 # ---- independent description of types (typing introspection only, no normalize_type) --------------------
@@ -77,7 +81,7 @@ def norm_key(tp):
 
 ABSTRACT = {Abs, Proto}
 ATOMS = [
-    ("A", A), ("A1", A1), ("Abs", Abs), ("Proto", Proto), ("int", int), ("list", list), ("List", List), ("NT", NT), ("List[int]", List[int]),
+    ("A", A), ("A1", A1), ("Abs", Abs), ("Impl", Impl), ("Proto", Proto), ("int", int), ("list", list), ("List", List), ("NT", NT), ("List[int]", List[int]),
     ("Optional[int]", Optional[int]), ("'a'", "a"), ("'ab'", "ab"), ("'a.*'", "a.*"), ("'a|b'", "a|b"), ("re(b?)", re.compile("b?")),
 ]
 ATOM_BY_NAME = dict(ATOMS)
@@ -449,6 +453,58 @@ def integration(ctx):
                 ctx.violation(f"integration-checker-vs-stack:{name}", f"{name} on documented stack of {site}: checker {not ref(st)}, expected {ref(st)}", {"pred": name, "site": site})
 
 
+def operands_survive(ctx):
+    """Building a derived predicate (x | y, x & y, x ^ y, ~x, x + y, P[x][...]) creates a NEW predicate: the operands keep their truth
+    tables (seeded change: `|` appended in place to a left operand that already was an OR)."""
+    rng = ctx.rng("operands")
+    locs = all_locs()
+    stks = stacks(locs, rng, 250, 80)
+    atoms = [("atom", n) for n, _ in ATOMS]
+    bases = [("or", rng.choice(atoms), rng.choice(atoms)) for _ in range(10)] + [("and", rng.choice(atoms), rng.choice(atoms)) for _ in range(4)] \
+        + [("tuple", ["A", "int"]), ("tuple", ["Abs", "'a'", "NT"]), ("xor", atoms[0], atoms[4]), ("not", atoms[2]), ("chain", [atoms[0], atoms[10]])]
+    for style in (0, 1):
+        for e in bases:
+            built = build(e, style)
+            from adaptix._internal.provider.loc_stack_filtering import LocStackChecker, LocStackPattern  # noqa: PLC0415
+
+            is_pattern = isinstance(built, LocStackPattern)
+            base = built if isinstance(built, LocStackChecker) else create_loc_stack_checker(built)
+            table = [base.check_loc_stack(None, LocStack(*st)) for st in stks]
+            others = [create_loc_stack_checker(build(rng.choice(atoms), style)) for _ in range(3)]
+            derived_ok = True
+            for o in others:
+                for op in ("or", "ror", "and", "xor", "not", "pattern-or", "pattern-add"):
+                    try:
+                        if op == "or":
+                            _ = base | o
+                        elif op == "ror":
+                            _ = o | base
+                        elif op == "and":
+                            _ = base & o
+                        elif op == "xor":
+                            _ = base ^ o
+                        elif op == "not":
+                            _ = ~base
+                        elif op == "pattern-or" and is_pattern:
+                            _ = built | P[int]
+                            _ = built | P.a | P.b
+                        elif op == "pattern-add" and is_pattern:
+                            _ = built + P.a
+                            _ = P[int] + built
+                    except Exception:  # noqa: BLE001
+                        derived_ok = False
+            again = [base.check_loc_stack(None, LocStack(*st)) for st in stks]
+            ctx.evaluated(("operands-survive", show(e), style), nontrivial=True)
+            ctx.count("operand_survival_checks")
+            ctx.count("evaluations", 2 * len(stks))
+            if not derived_ok:
+                ctx.count("derived_expression_not_buildable")
+            if again != table:
+                i = next(i for i, (x, y) in enumerate(zip(table, again)) if x != y)
+                ctx.violation("operand-changed-by-building-a-derived-predicate", f"{show(e)} (style {style}) on {_show_stack(stks[i])}: {table[i]} before, {again[i]} after other predicates "
+                              f"were derived from it", {"expr": show(e), "stack": _show_stack(stks[i])})
+
+
 def facades(ctx):  # noqa: C901
     """Facade functions that take several predicates (bound_by_any): the binding is the OR of the predicates, for every stack,
     however often and in whatever order it is asked; on real retorts every named class is affected."""
@@ -520,7 +576,7 @@ def facades(ctx):  # noqa: C901
                 ctx.violation("facade-binding-ignored:multi-predicate", f"{name}: dump({value!r}) = {d!r}, load({outer!r}) = {l!r}; expected {outer!r} / {value!r}", {"facade": name, "class": tp.__name__})
 
 
-DIRECTED = {"integration-markers": integration, "multi-predicate-facades": facades}
+DIRECTED = {"integration-markers": integration, "multi-predicate-facades": facades, "operands-survive-derivation": operands_survive}
 
 
 def run_case(ctx, rng, idx):
